@@ -219,6 +219,7 @@ func isPrefix(a, b []int) bool {
 func init() {
 	Register(&Scenario{
 		Name:     "stream",
+		OptsToo:  true,
 		LazyToo:  true,
 		Property: "C07",
 		Cfg:      vsched.Config{Horizon: 10 * time.Second},
